@@ -10,7 +10,7 @@ PROP = {
                    "what each HTLC carried: preimage hashes to the HTLC's hash, set carried the required payment address, "
                    "one common total >= invoice amount, sum >= total, every member expiry >= accept height + required delta; "
                    "invoice/HTLC states only move forward, AmtPaid exact, replay keeps the verdict, never settled and canceled. "
-                   "A second unit issues the notifications from 2-3 goroutines + an admin goroutine (quick 600 cases; thorough 30000 under -race)."),
+                   "For a quarter of the HTLC events the harness' HtlcInterceptor holds the registry between its invoice lookup and its update transaction while the set timeout of the held shards fires (interceptor_windows_set_timed_out counts windows in which the store showed the shards canceled before the call returned). A second unit issues the notifications from 2-3 goroutines + an admin goroutine (quick 600 cases; thorough 30000 under -race)."),
     "level_note": ("Sampled sequences, not exhaustive. Terms of spontaneous (keysend / AMP) invoices are read from the store "
                    "because lnd chooses them. A keysend HTLC that proves knowledge of the preimage is exempt from the "
                    "payment-address clause (documented lnd behaviour, reported as diagnostic). Replay clause is judged only "
@@ -23,7 +23,9 @@ PROP = {
              "concurrent notifiers (conc unit). A run is non-trivial when at least one HTLC was accepted or settled; "
              "distinct = distinct (invoice kinds/features, HTLC styles, per-HTLC verdict-kind sequences, "
              "flags settled/replay/cancel/mpp-timeout) signatures."),
-    "assumptions": ["HtlcInterceptor is the no-op mock (no external amount modification / set cancellation)",
+    "assumptions": ["the HtlcInterceptor never modifies an amount and never cancels a set; for a quarter of the HTLC "
+                    "events it keeps the registry inside the interceptor call until the set timeout of the HTLCs the "
+                    "registry had read as accepted has elapsed and been executed (interceptor window)",
                     "GC of canceled invoices disabled",
                     "Postgres backend not exercised (not available offline)"],
     "race_anchors": ["invoices/update.go", "invoices/update_invoice.go", "invoices/invoiceregistry.go",
@@ -42,14 +44,16 @@ PROP = {
                           "oracle_settle_rule_evals": 2200, "oracle_preimage_evals": 5500,
                           "oracle_monotone_evals": 150000, "oracle_amtpaid_evals": 12000,
                           "oracle_replay_evals": 4800, "hodl_resolutions": 4500,
-                          "settled_sets_mpp_multi": 270, "settled_sets_amp_multi": 380,
-                          "settled_sets_legacy_hold": 90, "settled_sets_mpp_multi_hold": 80},
+                          "settled_sets_mpp_multi": 180, "settled_sets_amp_multi": 220,
+                          "settled_sets_legacy_hold": 90, "settled_sets_mpp_multi_hold": 55,
+                          "interceptor_windows_set_timed_out": 1100},
                 "thorough": {"cases": 300000, "runs_kv": 300000, "runs_sqlite": 300000,
                              "oracle_settle_rule_evals": 225000, "oracle_preimage_evals": 570000,
                              "oracle_monotone_evals": 15000000, "oracle_amtpaid_evals": 1270000,
                              "oracle_replay_evals": 500000, "hodl_resolutions": 450000,
-                             "settled_sets_mpp_multi": 30000, "settled_sets_amp_multi": 43000,
-                             "settled_sets_legacy_hold": 11000, "settled_sets_mpp_multi_hold": 9000},
+                             "settled_sets_mpp_multi": 18000, "settled_sets_amp_multi": 22000,
+                             "settled_sets_legacy_hold": 11000, "settled_sets_mpp_multi_hold": 5500,
+                             "interceptor_windows_set_timed_out": 110000},
             },
         },
         {
@@ -63,10 +67,12 @@ PROP = {
                 # oracle_monotone_evals depends on how often the observer goroutine gets to run: low floor
                 "quick": {"cases": 600, "oracle_settle_rule_evals": 180, "oracle_preimage_evals": 480,
                           "oracle_monotone_evals": 1000, "oracle_replay_evals": 430,
-                          "hodl_resolutions": 180, "settled_sets_mpp_multi": 30},
+                          "hodl_resolutions": 180, "settled_sets_mpp_multi": 20,
+                          "interceptor_windows_set_timed_out": 100},
                 "thorough": {"cases": 30000, "oracle_settle_rule_evals": 10500, "oracle_preimage_evals": 25000,
                              "oracle_monotone_evals": 150000, "oracle_replay_evals": 24000,
-                             "hodl_resolutions": 16000, "settled_sets_mpp_multi": 1500},
+                             "hodl_resolutions": 16000, "settled_sets_mpp_multi": 1000,
+                             "interceptor_windows_set_timed_out": 5000},
             },
         },
     ],
